@@ -168,7 +168,7 @@ def run_job(job, work, tier):
             jr.msg = "goto-instrument --unwindset failed:\n" + out[-3000:]
             return jr
         cur = b
-    if job.get("enforce") or job.get("loop_contracts"):
+    if job.get("enforce") or job.get("loop_contracts") or job.get("replace"):
         b = os.path.join(d, "c.gb")
         cmd = ["goto-instrument", "--dfcc", job["harness"]]
         if job.get("enforce"):
@@ -191,10 +191,12 @@ def run_job(job, work, tier):
         cmd += ["--unwind", str(job["unwind_thorough"] if tier == "thorough" and job.get("unwind_thorough") else job["unwind"]),
                 "--unwinding-assertions"]
     if job.get("cbmc_unwindset"):
-        cmd += ["--unwindset", job["cbmc_unwindset"], "--unwinding-assertions"]
+        cmd += ["--unwindset", job["cbmc_unwindset"]] + ([] if job.get("unwind") else ["--unwinding-assertions"])
     if job.get("object_bits"):
         cmd += ["--object-bits", str(job["object_bits"])]
     cmd += job.get("flags", [])
+    if job.get("solver"):
+        cmd += ["--sat-solver", job["solver"]]
     jr.cmds.append(" ".join(cmd))
     rc, out, s = run(cmd, timeout)
     jr.secs["cbmc"] = round(s, 2)
@@ -415,7 +417,7 @@ def write_evidence(prop, spec, tier, seed, results, native_reports, manifest, wa
                       "route": route, "bound": j.get("bound"), "arch": j.get("arch"),
                       "status": jr.status, "obligations": n, "discharged": dis,
                       "loop_invariant_obligations": jr.loop_obl,
-                      "backend": "cbmc 6.11 SAT (minisat2)" if not any(f.startswith("--external-sat") or f in ("--cvc5", "--z3") for f in j.get("flags", [])) else " ".join(j.get("flags")),
+                      "backend": "cbmc 6.11 SAT (%s)" % (j.get("solver") or "minisat2"),
                       "seconds": jr.secs, "claims": j.get("claims", "")})
         for r in others:
             d = r["description"] or ""
